@@ -36,6 +36,11 @@ CHECKS.update({
   'note': 'The page script is TypeScript: its protocol is an assumption (transliterated). Core start_evaluating contract is assumed; to_string/extend/join are assumed total. The start-up loader defect is outside reach.',
   'technique': 'Verus contracts + invariant on the Web adapter, exec-form protocol lemmas',
  },
+ 'C15': {
+  'text': 'Partial proof, on the real abasic-cli functions (clap derive/attributes dropped; the `colored` dependency is linked as the real crate, built from Cargo.lock with the toolchain Verus uses): the options the session was started with are the ones in force in the interpreter that runs the program - CliArgs::create_interpreter / configure_interpreter set both switches from the arguments, StdioInterpreter::new establishes and load_source_file (file mode, with or without --skip-check), show_interpreter_output, break_interpreter and show_error preserve "interpreter.enable_warnings == args.warnings && interpreter.enable_tracing == args.tracing" and leave the arguments alone; a loaded session is idle and well formed, so RUN can follow; Interpreter::from_program runs exactly the program it is given. No index or arithmetic in load_source_file can go out of range given that every diagnostic names a line of the file. Census: run_impl replaces the interpreter only through args.create_interpreter().',
+  'note': 'The loading-equals-typing half (SourceFileAnalyzer::run) is undecided. Assumed: analyzer contracts (analyze / take_messages / take_source_file_lines / into_interpreter), printer methods and Display impls are total, std::fs::read_to_string / SystemTime / println are total and touch no program state, the clock does not run backwards between two adjacent statements.',
+  'technique': 'Verus contracts + invariant on the CLI front-end (verbatim extraction, real `colored` crate linked), syntactic census for run_impl',
+ },
  'C05': {
   'text': 'Partial proof of the source map: add/add_empty keep the invariant "every registered BASIC line points at an existing file line"; every position map_location_to_source returns is one of the token ranges registered for exactly the file line the line-number map names; tokenization-error ranges satisfy start <= end <= line length and map to the diagnostic\'s own file line; no index can go out of bounds under the stated preconditions. SourceFileAnalyzer::run itself is outside both verifiers.',
   'note': 'Trusted: vstd HashMap/Vec specs, Range::clone is structural, derived Default of SourceLineRanges. The preconditions of map_to_source (file_line < number of lines; error index within the line) are obligations of run(), which is not verified.',
@@ -89,7 +94,6 @@ CHECKS.update({
 })
 NOT_APPLICABLE = {
  'C14': 'every anchored mechanism is core::fmt Display, f64 printing/parsing and the full tokenizer; neither verifier models them, a contract could only restate the round trip as an axiom',
- 'C15': 'compares two process-level I/O modes of abasic-cli (clap, rustyline, std::fs, stdout); load_source_file is format!/colored glue outside both verifiers',
  'C20': 'JSON-RPC main loop over threads (lsp-server, serde) and iterator-adapter code over SourceFileAnalyzer; UTF-16 conversion would be a contract on code that does not exist',
 }
 NOTES = 'Exit codes of bin/vcheck: 0 holds, 1 VIOLATION (line printed), 2 undecided (tool trouble: lost anchor, unsupported construct, rlimit/timeout, vacuity canary) - exit 2 is never an alarm. known_findings.json lists recorded findings and fixed defects. No hooks are committed to /repo.'
